@@ -109,15 +109,6 @@ def generate(template_path, repo, out_name):
             line += text.count('\n', 0, a)
             dropped.append('text outside slice [%s .. %s)' % (t.get('slice_from', 'body start'), t.get('slice_to', 'body end')))
             text = '{' + text[a:b] + '}'
-        if 'this_members' in t:
-            # member names -> this->name (instead of member macros), from the real class declaration
-            tm = t['this_members']
-            names = [n for _, n in L.members(src(tm['file']), tm['class'])]
-            cnt = 0
-            for n in names:
-                text, k = re.subn(r'(?<![\w.])(?<!->)%s\b(?!\s*\()' % re.escape(n), 'this->' + n, text)
-                cnt += k
-            log.append({'rule': 'members of %s -> this->member' % tm['class'], 'fired': cnt, 'must': '*'})
         if t.get('init_list'):
             # constructor initialiser list `: a(x), b(y)` lowered to assignments in declaration order
             text = lower_init_list(head, text, t, log)
@@ -133,6 +124,15 @@ def generate(template_path, repo, out_name):
         if t.get('std', True):
             text = X.lower_range_for(text, log)
             text = preserve_lines_rewrites(text, X.STD_RULES, log, what)
+        if 'this_members' in t:
+            # member names -> this->name (instead of member macros), from the real class declaration
+            tm = t['this_members']
+            names = [n for _, n in L.members(src(tm['file']), tm['class'])]
+            cnt = 0
+            for n in names:
+                text, k = re.subn(r'(?<![\w.])(?<!->)%s(_size)?\b(?!\s*\()' % re.escape(n), lambda mm: 'this->' + mm.group(0), text)
+                cnt += k
+            log.append({'rule': 'members of %s -> this->member' % tm['class'], 'fired': cnt, 'must': '*'})
         text = preserve_lines_rewrites(text, t.get('post_rewrites', []), log, what)
         text = X.lower_try(text, log)
         ghosts = [dict(gh, text=_one_line(gh['text'])) for gh in t.get('ghosts', [])]
